@@ -100,6 +100,15 @@ def families(tier="quick"):
     fam["arith"] = [{"name": "ari_" + "_".join("%x" % i for i in c),
                      "text": ".data\ndata: .word 1, 2\n.text\n" + wrap([B[i] for i in c])}
                     for c in itertools.product(range(len(B)), repeat=k)]
+    # the two alphabets interleaved
+    fam["mix"] = [{"name": "mix_%x_%x_%x" % c, "text": ".data\ndata: .word 1, 2\n.text\n" + wrap([A[c[0]], B[c[1]], A[c[2]]])}
+                  for c in itertools.product(range(len(A)), range(len(B)), range(len(A)))]
+    # a function that keeps a frame pointer: sp is recovered from another register
+    P = A + ["addi sp, sp, -4", "mv sp, s1", "sw s1, 8(sp)", "lw s1, 0(sp)"]
+    fam["fp"] = [{"name": "fp_%x_%x" % c,
+                  "text": "main:\n    jal ra, f\n" + EXIT + "f:\n    addi sp, sp, -16\n    sw s1, 0(sp)\n    mv s1, sp\n    %s\n    %s\n"
+                          "    mv sp, s1\n    lw s1, 0(sp)\n    addi sp, sp, 16\n    ret\n" % (P[c[0]], P[c[1]])}
+                 for c in itertools.product(range(len(P)), repeat=2)]
     return fam
 
 
